@@ -227,7 +227,7 @@ def _worker(hname, cfgs, opts, tasks, results, widx, stop_flags=None):
                         else:
                             st.cands[key]["count"] += 1
                     # engine validation: concrete replay of this path's model must agree
-                    if status == "done" and not cx.candidates and not cx.repeats and (st.validated < opts["validate_first"] or st.done % opts["validate_every"] == 0):
+                    if status == "done" and not cx.candidates and not cx.repeats and not cx.ended_by_exception and (st.validated < opts["validate_first"] or st.done % opts["validate_every"] == 0):
                         m = cx._nice_model(strict_only=True)
                         if m is None:
                             st.counters['validation_skipped_tie_only_path'] = st.counters.get('validation_skipped_tie_only_path', 0) + 1
